@@ -79,7 +79,7 @@ Proof.
   destruct (Nat.ltb (length (m_own m)) 32); [exact H|].
   destruct (negb (mem_first_is 60 (m_own m))); [exact H|].
   destruct (mem_next_field (m_own m) 0 (length (m_own m))) as [e|]; [|exact H].
-  destruct (Nat.ltb e 2); [exact I|].
+  destruct (Nat.ltb e 2); [exact H|].
   destruct (negb _); [exact H|].
   destruct (mem_atoi _) as [pri|]; [|exact H].
   destruct (_ || _)%bool; [exact H|].
